@@ -300,7 +300,7 @@ func ruleTabExtOid(c *Ctx, r *Rep) {
 		staticCalleesDeep(c, bfn, 2, seen)
 		ids := map[string]bool{}
 		for f := range seen {
-			if !strings.HasSuffix(f.Pkg.Pkg.Path(), "generator/cert") {
+			if !strings.HasSuffix(fnPkgPath(f), "generator/cert") {
 				continue
 			}
 			for _, id := range idStoredBy(c, ev, f) {
@@ -1377,18 +1377,46 @@ func suffixDecides(c *Ctx, r *Rep, want []string) {
 	if parse == nil {
 		return
 	}
-	for fn := range c.walkCallbacks() {
+	for cb := range c.walkCallbacks() {
+		fn := cb
 		// the call that leads to the reader: ParseConfig itself or a module function below which it is called
-		var site ssa.CallInstruction
-		for _, ci := range callsIn(fn) {
-			g := ci.Common().StaticCallee()
-			if g == nil {
-				continue
+		findSite := func(f *ssa.Function) ssa.CallInstruction {
+			for _, ci := range callsIn(f) {
+				g := ci.Common().StaticCallee()
+				if g == nil {
+					continue
+				}
+				if g == parse || (c.InModule(g) && g.Blocks != nil && reachesStatically(c, g, parse, 0)) {
+					return ci
+				}
 			}
-			if g == parse || (c.InModule(g) && g.Blocks != nil && reachesStatically(c, g, parse, 0)) {
-				site = ci
+			return nil
+		}
+		mentionsFilter := func(f *ssa.Function) bool {
+			for _, ci := range callsIn(f) {
+				n := calleeFullName(ci)
+				if strings.HasSuffix(n, "strings.HasSuffix") || strings.Contains(n, "MatchString") || strings.Contains(n, "IsDir") {
+					return true
+				}
+				if g := ci.Common().StaticCallee(); g != nil && c.InModule(g) && g.Blocks != nil && len(g.Blocks) <= 12 && g != f {
+					for _, ci2 := range callsIn(g) {
+						n2 := calleeFullName(ci2)
+						if strings.HasSuffix(n2, "strings.HasSuffix") || strings.Contains(n2, "MatchString") {
+							return true
+						}
+					}
+				}
+			}
+			return false
+		}
+		site := findSite(fn)
+		// a callback that hands each entry to a function of the module: the filter is looked for there
+		for depth := 0; depth < 3 && site != nil && !mentionsFilter(fn); depth++ {
+			g := site.Common().StaticCallee()
+			if g == nil || g == parse {
 				break
 			}
+			fn, site = g, findSite(g)
 		}
 		if site == nil {
 			continue
